@@ -213,6 +213,14 @@ class World:
         if cfg.get("args") == "sync":
             from tartiflette.resolver.default import sync_arguments_coercer
             kw["custom_default_arguments_coercer"] = sync_arguments_coercer
+        if cfg.get("cdr"):
+            # a custom default resolver doing what the built-in one does (key of a mapping, else attribute)
+            async def custom_default_resolver(parent, args, ctx, info):
+                name = info.field_name
+                if isinstance(parent, dict):
+                    return parent.get(name)
+                return getattr(parent, name, None)
+            kw["custom_default_resolver"] = custom_default_resolver
         if "cache" in cfg:
             kw["query_cache_decorator"] = cfg["cache"]
         if "coercer" in cfg:
